@@ -144,6 +144,11 @@ func c01Size(rng *fw.Rand, v int, margin int) (int, int) {
 		m = margin
 	}
 	nat := qrref.Size(v) + 2*m
+	if v <= 3 && rng.Intn(12) == 0 {
+		// poster sizes: a module is 33..70 pixels wide and spans two or more 32-bit words of a row
+		k := 33 + rng.Intn(38)
+		return nat*k + rng.Intn(k), nat*k + rng.Intn(k)
+	}
 	switch rng.Intn(6) {
 	case 0:
 		return 0, 0
@@ -161,9 +166,63 @@ func c01Size(rng *fw.Rand, v int, margin int) (int, int) {
 	}
 }
 
+// c01Retained: several symbols of ONE version are encoded one after the other and every result is
+// decoded only after the last encode: a QRCode handed out earlier keeps its modules, mask and
+// format information whatever the encoder does afterwards.
+func c01Retained(r *fw.Rec, v int) {
+	rng := r.Rng
+	type held struct {
+		code  *qrenc.QRCode
+		text  string
+		level qrref.Level
+	}
+	var hs []held
+	for i := 0; i < 4; i++ {
+		l := qrAllLevels[rng.Intn(4)]
+		mode := qrAllModes[rng.Intn(4)]
+		n := qrLenIn(rng, v, l, mode)
+		if n == 0 {
+			continue
+		}
+		text, _, charset := qrPayload(rng, mode, n)
+		mask := -1
+		if rng.Bool() {
+			mask = rng.Intn(8)
+		}
+		code, err := qrenc.Encoder_encode(text, qrLibLevel[l], qrHints(v, mask, charset))
+		r.Evals(1)
+		if err != nil {
+			r.Violation("roundtrip", "qr.encode:refused-fitting-content:retained", fmt.Sprintf("Encoder_encode refused %d %s characters for %d-%s: %v", n, qrModeName[mode], v, qrLevelName[l], err), nil)
+			return
+		}
+		hs = append(hs, held{code, text, l})
+	}
+	for i, h := range hs {
+		res, err := qrdec.NewDecoder().Decode(boolsToBitMatrix(byteMatrixToBools(h.code.GetMatrix())), nil)
+		info := map[string]interface{}{"version": v, "position_in_history": i, "history_length": len(hs), "text": h.text}
+		if err != nil || res.GetText() != h.text || res.GetECLevel() != qrLevelName[h.level] {
+			got, lv := "", ""
+			if res != nil {
+				got, lv = res.GetText(), res.GetECLevel()
+			}
+			r.Violation("roundtrip", "qr.matrix-path:earlier-result-changed-by-later-encodes", fmt.Sprintf("version %d: the matrix of encode %d of %d, decoded after the last encode, gives %q / level %s / %v; it was written as %q / level %s", v, i+1, len(hs), trunc(got, 50), lv, err, trunc(h.text, 50), qrLevelName[h.level]), info)
+			return
+		}
+		r.Tally("retained_results_decoded_after_later_encodes")
+	}
+	r.Nontrivial(fmt.Sprintf("retained/%d/%d", v, rng.Uint64()))
+}
+
 func c01(c *fw.Ctx) {
 	c.Rule("boundary enumeration: every (version 1..40, level, mode) with length capacity and capacity-1 under a forced version, and capacity and capacity+1 with no version hint (the latter must land on the next version), masks rotating 0..7/none; random classes: digits, 45-set, byte mode with every value 0..255 (ISO-8859-1 hint), UTF-8 without hint (1-4 byte sequences, NUL, controls, U+FEFF, astral), every registered charset with text from its repertoire, Shift_JIS double-byte (kanji mode); both decode paths (encoder matrix -> decoder; writer image at random sizes/margins -> pure-barcode reader); distinct = distinct (text, options) Half of the rendered images reach the reader as Gray / RGBA / NRGBA pictures, packed or as SubImage views of a larger canvas.")
 	c.Assume("'fits' is decided by qrref capacities (ISO 18004 tables), not by the library; charset hints are only combined with text drawn from that charset's repertoire (x/text codec round trip)")
+	for v := 1; v <= 40; v++ {
+		v := v
+		for k := 0; k < c.Pick(2, 10); k++ {
+			c.Run(fmt.Sprintf("retained/%d/%d", v, k), func(r *fw.Rec) { c01Retained(r, v) })
+		}
+	}
+	c.Floor("retained_results_decoded_after_later_encodes", 250)
 	// (a) boundaries
 	for v := 1; v <= 40; v++ {
 		for _, l := range qrAllLevels {
